@@ -191,7 +191,7 @@ OpKron ==
        /\ MergeBlocks(Range(T), "ps")
        /\ known' = [j \in Subs |-> IF j \in Range(T) /\ Kind[j] = "F" THEN FALSE ELSE known[j]]
        /\ UNCHANGED <<alive, cid, ncomp, contr>>
-       /\ Log([a |-> "opk", en |-> "ce", g |-> gs, t |-> T, rej |-> FALSE])
+       /\ Log([a |-> "opk", en |-> "ce", g |-> gs, gk |-> gs, t |-> T, rej |-> FALSE])
 
 (***************************************************************************)
 (* Kraus channels                                                          *)
